@@ -339,8 +339,9 @@ class SpiSlaveHarness(Harness):
        mon: (starts, irqs, since_end) pulse counters of the current / last transfer"""
     live_queries = (("spi.slave.stuck", BUSY, 0, (), "chip select released for ever but done never returns"),)
 
-    def __init__(self, name, dw=4, half=4, skew=0, loopback=0, lengths=None, nwords=3):
+    def __init__(self, name, dw=4, half=4, skew=0, loopback=0, lengths=None, nwords=3, foreign=0):
         self.name, self.dw, self.h, self.skew, self.loopback = name, dw, half, skew, loopback
+        self.foreign = foreign      # clock pulses of a transfer to ANOTHER slave on the shared clk / mosi lines (this slave's cs_n stays high)
         self.lengths = list(lengths if lengths is not None else range(0, dw + 1))
         m = (1 << dw) - 1
         self.wm = words_for(dw, True)[:nwords]
@@ -368,6 +369,12 @@ class SpiSlaveHarness(Harness):
         """list of (cs_n, clk, mosi, index of the rising edge that happens in this cycle or -1); bits MSB first out of the low L bits of wm"""
         key = (wm, L, lead)
         w = self.wave.get(key)
+        if w is None and wm == "F":
+            # foreign traffic: cs_n high, L clock pulses, mosi alternating 1, 0, 1, ..
+            w = []
+            for k in range(L):
+                w += [(1, 1, (k + 1) & 1, -1)] * self.h + [(1, 0, k & 1, -1)] * self.h
+            self.wave[key] = w
         if w is None:
             bit = lambda k: (wm >> (L - 1 - k)) & 1 if 0 <= k < L else 0
             w = [(0, 0, bit(0), -1)] * lead
@@ -388,6 +395,8 @@ class SpiSlaveHarness(Harness):
         if run is not None:
             return [("c",)]
         out = [("i",)]
+        if self.foreign and gap >= self.mingap:
+            out.append(("f",))
         if gap >= self.mingap:
             for wm in self.wm:
                 for L in self.lengths:
@@ -401,6 +410,8 @@ class SpiSlaveHarness(Harness):
     def _cur(self, env, ch):
         if ch[0] == "x":
             return (ch[1], ch[2], ch[3], ch[4], 0)
+        if ch[0] == "f":
+            return ("F", self.foreign, 0, 0, 0)
         return env[0]
 
     def drive(self, v, env, ch):
@@ -422,6 +433,11 @@ class SpiSlaveHarness(Harness):
         starts, irqs, since_end, miso_r = mon
         run = self._cur(env, ch)
         st, irq, done = v[i["start"]], v[i["irq"]], v[i["done"]]
+        frun = None
+        if run is not None and run[0] == "F":
+            # traffic for another slave: this one is idle (judged by the idle branch below), only the foreign waveform advances
+            frun, run = run, None
+            self.foreign_cycles = getattr(self, "foreign_cycles", 0) + 1
         if run is not None and run[4] == 0:
             starts, irqs, since_end = 0, 0, 0
         starts += st
@@ -456,6 +472,9 @@ class SpiSlaveHarness(Harness):
             since2 = 0
         else:
             run2, gap2, res2 = None, min(gap + 1, self.mingap + 1), res
+            if frun is not None:
+                n = frun[4] + 1
+                run2, gap2 = (frun[:4] + (n,) if n < len(self.waveform(frun[0], frun[1], frun[3])) else None), 0
             since2 = min(since_end + 1, 9)
             if st and res is not None:
                 return env, ("spi.slave.start", "start pulse while the chip select is released"), 0
@@ -487,7 +506,9 @@ class SpiSlaveHarness(Harness):
         return (run2, gap2, res2, (starts, irqs, since2, miso_r)), None, flags
 
     def cover_report(self):
-        return dict(transfers_completed=self.completed, lengths=sorted(self.lens))
+        return dict(transfers_completed=self.completed, lengths=sorted(self.lens), foreign_traffic_cycles=getattr(self, "foreign_cycles", 0))
 
     def vacuity(self):
+        if self.foreign and not getattr(self, "foreign_cycles", 0):
+            return "no foreign traffic explored"
         return None if self.completed else "no transfer completed"
